@@ -84,6 +84,7 @@ def required(tier):
         "gt_with_missing_allele": 5000, "ps_checked": 8000, "ac_checked": 8000, "ds_checked": 12000, "ds_input_sums_below_ploidy": 6000,
         "ds_from_afp": 3000, "ds_absent_checked": 1200, "info_acp_checked": 4000, "dp_checked": 4000, "dp_absent_checked": 1500,
         "dp_site_order_matters": 1000, "output_lines_wellformed_checked": 8000, "multi_record_runs_ok": 800,
+        "records_listing_more_than_128_haplotypes": 100,
     }
     k = 1 if tier == "quick" else 8
     return {name: v * k for name, v in q.items()}
@@ -479,8 +480,10 @@ def check_text(text, origin, col, runner):
     hin, recs = vcfparse.parse(text)
     head, body = split_text(text)
     shapes = [shape_of(r) for r in recs]
-    for sh in shapes:
+    for sh, r_ in zip(shapes, recs):
         col.count("records_seen")
+        if len(r_.alts) >= 128:
+            col.count("records_listing_more_than_128_haplotypes")
         col.count({"nosnv": "shape_no_snvpos_records", "noalt-snv": "shape_noalt_with_snvpos_records", "mono": "shape_monomorphic_site_records", "plain": "shape_plain_records"}[sh])
     if origin != "generated":
         col.count("pipeline_records", len(recs))
@@ -570,6 +573,8 @@ def gen_record(rng, contigs, contig, start, length, shape, name):
     if shape != "nosnv":
         lo = 2 if shape == "mono" else 1
         n_sites = int(rng.integers(lo, max(lo, min(length, 5)) + 1))
+        if shape == "wide":
+            n_sites = min(length, 10)
         cols = sorted(int(c) for c in rng.choice(np.arange(length), size=n_sites, replace=False))
         pools = []
         for c in cols:
@@ -585,7 +590,13 @@ def gen_record(rng, contigs, contig, start, length, shape, name):
             n_alts = int(rng.integers(1, 7))
             p_ref = float(rng.choice([0.2, 0.5, 0.7]))
             tries = 0
-            while len(rec["alts"]) < n_alts and tries < 60:
+            max_tries = 60
+            if shape == "wide":
+                # large haplotype panel: allele numbers beyond 127 / 255 in GT, AC, ACP (call / call-exact write such records)
+                n_alts = int(rng.choice([129, 140, 200, 256, 300]))
+                p_ref = 0.5
+                max_tries = 20000
+            while len(rec["alts"]) < n_alts and tries < max_tries:
                 tries += 1
                 s = list(ref)
                 for i, c in enumerate(cols):
@@ -597,7 +608,7 @@ def gen_record(rng, contigs, contig, start, length, shape, name):
                     rec["alts"].append(s)
         seqs = [ref] + rec["alts"]
         poly = [c for c in cols if len({s[c] for s in seqs}) > 1]
-        if shape == "plain":
+        if shape in ("plain", "wide"):
             cols = poly
     info = {}
     if rng.random() < 0.5:
@@ -682,11 +693,15 @@ def gen_file(rng, kind):
             shapes = [str(rng.choice(["plain", "nosnv"], p=[0.85, 0.15])) for _ in range(n)]
         else:
             shapes = [str(rng.choice(["plain", "nosnv", "noalt-snv", "mono"], p=[0.45, 0.1, 0.2, 0.25])) for _ in range(n)]
+    if kind != "hostile-single" and rng.random() < 0.12:
+        shapes[int(rng.integers(len(shapes)))] = "wide"
     cursor = {c: int(rng.integers(1, 30)) for c in names}
     records = []
     for i, sh in enumerate(shapes):
         c = names[int(rng.integers(len(names)))]
         ln = int(rng.integers(1, 31)) if rng.random() < 0.85 else int(rng.integers(1, 4))
+        if sh == "wide":
+            ln = int(rng.integers(12, 31))
         st = cursor[c]
         if st + ln + 2 > len(contigs[c]):
             continue
